@@ -1542,6 +1542,10 @@ func runC16(c *ctx) {
 		c16Names(c)
 		return
 	}
+	if strings.HasPrefix(c.replay, "wclose ") {
+		c16ReplayWC(c, c.replay)
+		return
+	}
 	if strings.HasPrefix(c.replay, "stall ") {
 		c16ReplayStall(c, c.replay)
 		return
@@ -1782,6 +1786,7 @@ func runC16(c *ctx) {
 	c16Names(c)
 	c16OpenAborts(c)
 	c16ConcurrentProbe(c)
+	c16WriteCloses(c)
 	tL := time.Now()
 	for _, l := range [][3]bool{{true, true, false}, {true, false, true}, {true, true, true},
 		{false, true, false}, {false, false, true}, {false, true, true}} {
